@@ -276,6 +276,9 @@ func c08Accumulator(p *chk.Prog, r *chk.Report) {
 				ok = false
 			}
 		}
+		if !ok {
+			ok = c08NodeIPsTwoPhase(nf, ng)
+		}
 		x.Check("NodeIPsForFamily:all-internal-ips-of-family", nf.Pos(), ok, "", "NodeIPsForFamily can omit an internal IP of the requested family")
 	}
 }
@@ -971,4 +974,84 @@ func c08AggrDiff(p *chk.Prog, r *chk.Report) {
 			}
 		}
 	}
+}
+
+// c08NodeIPsTwoPhase: NodeIPsForFamily written as "collect every internal IP, then keep those of the family": the first
+// list gains net.ParseIP(a.Address) for every InternalIP address of every node (nothing else is skipped, neither loop is
+// left early); it is returned as it is only for the dual-stack request; the second list gains every element of the first
+// whose family is the requested one, and is what the other returns hand back.
+func c08NodeIPsTwoPhase(nf *chk.Fn, ng *chk.Graph) bool {
+	apps := ng.Find(nf.IsAssignPat("R", "append(R, IP)"))
+	if len(apps) != 2 {
+		return false
+	}
+	var first, second *chk.Site
+	for i := range apps {
+		rs, _ := nf.LoopOf(apps[i].Node).(*ast.RangeStmt)
+		if rs == nil {
+			return false
+		}
+		if _, nested := nf.LoopOf(rs).(*ast.RangeStmt); nested {
+			first = &apps[i]
+		} else {
+			second = &apps[i]
+		}
+	}
+	if first == nil || second == nil {
+		return false
+	}
+	l1 := nf.ObjOf(first.Node.(*ast.AssignStmt).Lhs[0])
+	l2 := nf.ObjOf(second.Node.(*ast.AssignStmt).Lhs[0])
+	if l1 == nil || l2 == nil || l1 == l2 || len(assignsTo(nf, l1)) != 1 || len(assignsTo(nf, l2)) != 1 {
+		return false
+	}
+	fam := isParamIdx(nf, 1)
+	// phase one
+	in1, _ := nf.LoopOf(first.Node).(*ast.RangeStmt)
+	out1, _ := nf.LoopOf(in1).(*ast.RangeStmt)
+	internal := ng.GPat(true, "A.Type == T", chk.H("T", constStr(nf, "InternalIP")))
+	notInternal := ng.GPat(false, "A.Type == T", chk.H("T", constStr(nf, "InternalIP")))
+	if nf.MatchNew("net.ParseIP(A.Address)", ast.Unparen(nf.Resolve(first.Node.(*ast.AssignStmt).Rhs[0].(*ast.CallExpr).Args[1]))) == nil {
+		return false
+	}
+	if loopSkipsWithout(ng, in1, func(n ast.Node) bool { return n == first.Top }, notInternal) || !ng.Dominated(*first, internal) || loopHasBreak(ng, in1) || loopHasBreak(ng, out1) ||
+		loopSkipsWithout(ng, out1, func(n ast.Node) bool { return n == ast.Node(in1.X) }, chk.NoGuard) {
+		return false
+	}
+	// phase two
+	rs2, _ := nf.LoopOf(second.Node).(*ast.RangeStmt)
+	if !nf.IsObj(l1)(rs2.X) || !ng.AfterLoop(chk.Site{G: ng, B: ng.FactSite(rs2.X).B, I: ng.FactSite(rs2.X).I, Top: ng.FactSite(rs2.X).Top, Node: rs2.X}, out1) {
+		return false
+	}
+	el := rangeVal(nf, rs2)
+	if !el(second.Node.(*ast.AssignStmt).Rhs[0].(*ast.CallExpr).Args[1]) {
+		return false
+	}
+	other := chk.GSame(ng.GPat(false, "ipfamily.ForAddress(IP) == F", chk.H("IP", el), chk.H("F", fam)), ng.GPat(true, "ipfamily.ForAddress(IP) != F", chk.H("IP", el), chk.H("F", fam)))
+	if loopSkipsWithout(ng, rs2, func(n ast.Node) bool { return n == second.Top }, other) || loopHasBreak(ng, rs2) {
+		return false
+	}
+	// the returns
+	dual := ng.GPat(true, "F == D", chk.H("F", fam), chk.H("D", isObjNamed(nf, "internal/ipfamily.DualStack")))
+	n := 0
+	for _, rt := range ng.Returns() {
+		rr := retResults(rt)
+		if len(rr) != 1 || chk.InBody(rs2, rt.Node) || chk.InBody(out1, rt.Node) {
+			return false
+		}
+		n++
+		switch nf.ObjOf(rr[0]) {
+		case l1:
+			if !ng.Dominated(rt, dual) || !ng.AfterLoop(rt, out1) {
+				return false
+			}
+		case l2:
+			if !ng.AfterLoop(rt, rs2) {
+				return false
+			}
+		default:
+			return false
+		}
+	}
+	return n >= 1
 }
